@@ -19,6 +19,9 @@ import (
 // C14 — ToJSON emits valid JSON that denotes the frame; ReadJSON inverts it.
 
 type jsonCase struct {
+	// Rows/Pad > 0: generated frame of Rows rows (int id, string s of Pad+row%3 bytes) for the output-size sweep
+	Rows  int         `json:"rows,omitempty"`
+	Pad   int         `json:"pad,omitempty"`
 	Frame model.Frame `json:"frame"`
 	Shape int         `json:"shape"`
 	// NameHex/StrHex carry raw bytes (JSON cannot carry invalid UTF-8): when set they override
@@ -55,6 +58,15 @@ func decodedString(s string) string {
 }
 
 func (c jsonCase) frame() model.Frame {
+	if c.Rows > 0 {
+		id := model.Col{Name: "id", Kind: model.Int}
+		sc := model.Col{Name: "s", Kind: model.String}
+		for r := 0; r < c.Rows; r++ {
+			id.Cells = append(id.Cells, model.I(r))
+			sc.Cells = append(sc.Cells, model.S(strings.Repeat("x", c.Pad+r%3)))
+		}
+		return model.Frame{N: c.Rows, Cols: []model.Col{id, sc}}
+	}
 	f := c.Frame.Clone()
 	f.Fix()
 	if c.NameHex != "" {
@@ -260,6 +272,20 @@ func c14Run(ctx *core.Ctx) {
 		f := model.Frame{N: len(c.Cells), Cols: []model.Col{c, idCol(len(c.Cells))}}
 		exec(jsonCase{Frame: f, Shape: int(ctx.Index() % int64(model.NShapes))}, "floats")
 	}
+	// output-size sweep: every row count 1..700 (records of ~20 bytes: the output crosses 4 KiB and
+	// 8 KiB at every alignment) and, at 150 and 300 rows, every padding 0..60
+	for rows := 1; rows <= 700; rows++ {
+		if ctx.Mine() {
+			exec(jsonCase{Rows: rows, Pad: 1, Shape: rows % model.NShapes}, "size-sweep")
+		}
+	}
+	for _, rows := range []int{150, 300} {
+		for pad := 0; pad <= 60; pad++ {
+			if ctx.Mine() {
+				exec(jsonCase{Rows: rows, Pad: pad}, "size-sweep")
+			}
+		}
+	}
 	mixed := []model.Frame{
 		{N: 3, Cols: []model.Col{{Name: "f", Kind: model.Float, Cells: []model.Cell{model.NaN(), model.F(1), model.NaN()}}, {Name: "i", Kind: model.Int, Cells: []model.Cell{model.I(math.MaxInt64), model.I(math.MinInt64), model.I(0)}}}},
 		{N: 2, Cols: []model.Col{{Name: "b", Kind: model.Bool, Cells: []model.Cell{model.B(true), model.B(false)}}, {Name: "s", Kind: model.String, Cells: []model.Cell{model.Null(), model.S("")}},
@@ -285,7 +311,7 @@ func init() {
 	core.Register(&core.Check{
 		ID:    "C14",
 		Level: "model_checking",
-		Rule: "case = (frame, index shape). String and enum cells and column names over EVERY single byte 0x00-0xFF as a one-byte string, every 2- and 3-byte (thorough: 4-byte) combination of a 12-byte risk alphabet (quote, backslash, slash, NUL, 0x1f, 0x7f, 0x80, 0xc2, 0xe2, 0xff, a, LF), U+2028/2029 and neighbours, 2-4 byte runes, truncated/overlong/surrogate sequences; floats from structured families (every exponent x 4 mantissas x signs, small decimals, powers of ten with neighbours) plus NaN; integer extremes; zero rows; zero columns. " +
+		Rule: "case = (frame, index shape). String and enum cells and column names over EVERY single byte 0x00-0xFF as a one-byte string, every 2- and 3-byte (thorough: 4-byte) combination of a 12-byte risk alphabet (quote, backslash, slash, NUL, 0x1f, 0x7f, 0x80, 0xc2, 0xe2, 0xff, a, LF), U+2028/2029 and neighbours, 2-4 byte runes, truncated/overlong/surrogate sequences; floats from structured families (every exponent x 4 mantissas x signs, small decimals, powers of ten with neighbours) plus NaN; integer extremes; zero rows; zero columns; an output-size sweep (every row count 1..700, paddings 0..60: output sizes across 4 KiB and 8 KiB at every alignment). " +
 			"Oracles: json.Valid; token stream = one object per row in row order with keys in column order and values equal to the cells (invalid bytes as U+FFFD, NaN/null as null, floats bit-identical after ParseFloat); ReadJSON(output, ColumnOrder, Enums) reproduces the frame (ints as equal floats) for valid UTF-8 and NaN-free floats. All cases non-trivial; distinct by content.",
 		Assumptions: []string{
 			"encoding/json's tokenizer is the JSON reference",
